@@ -68,6 +68,7 @@ pub fn clip(s: &str, n: usize) -> String {
 
 thread_local! {
     static LAST_PANIC: RefCell<Option<String>> = RefCell::new(None);
+    static IN_GUARDED: std::cell::Cell<bool> = std::cell::Cell::new(false);
 }
 static HOOK: Once = Once::new();
 
@@ -83,6 +84,10 @@ pub fn install_panic_hook() {
                 "<non-string panic payload>".to_string()
             };
             let loc = info.location().map(|l| format!("{}:{}", l.file(), l.line())).unwrap_or_default();
+            if !IN_GUARDED.with(|g| g.get()) {
+                // a panic of the harness itself, not of the library under test
+                eprintln!("HARNESS PANIC (outside a guarded library call): {} @ {}", msg, loc);
+            }
             LAST_PANIC.with(|p| *p.borrow_mut() = Some(format!("{} @ {}", msg, loc)));
         }));
     });
@@ -91,7 +96,10 @@ pub fn install_panic_hook() {
 pub fn guarded<T>(f: impl FnOnce() -> Result<T, String>) -> Out<T> {
     install_panic_hook();
     LAST_PANIC.with(|p| *p.borrow_mut() = None);
-    match catch_unwind(AssertUnwindSafe(f)) {
+    IN_GUARDED.with(|g| g.set(true));
+    let r = catch_unwind(AssertUnwindSafe(f));
+    IN_GUARDED.with(|g| g.set(false));
+    match r {
         Ok(Ok(v)) => Out::Ok(v),
         Ok(Err(e)) => Out::Err(e),
         Err(_) => Out::Panic(LAST_PANIC.with(|p| p.borrow_mut().take()).unwrap_or_else(|| "<unknown panic>".into())),
